@@ -315,6 +315,11 @@ def cases(draw):
 
 @st.composite
 def typed_cases(draw):
+    if draw(st.integers(0, 59)) == 0:
+        m = draw(st.sampled_from([90, 150, 260]))
+        return {"nodes": wavy_stroke(m, amp=draw(st.sampled_from([3.0, 6.0, 9.0]))),
+                "flat": draw(st.sampled_from([0.05, 0.02, 0.1])), "scale": 10.0 * m, "tags": ["long_stroke"],
+                "tuples": draw(st.booleans())}
     case = draw(cases())
     case["tuples"] = draw(st.booleans())
     # the same path far from the origin (a large sheet, other user units): translate by 2^10..2^30 of its scale, but
@@ -340,6 +345,15 @@ def typed_cases(draw):
     return case
 
 
+def wavy_stroke(m, step=10.0, amp=6.0, handle=4.0):
+    """A long hand-drawn stroke: m smooth nodes every `step` units, alternately `amp` above and below the axis."""
+    nodes = []
+    for k in range(m):
+        x, y = step * k, (amp if k % 2 else -amp)
+        nodes.append([[x - handle, y], [x, y], [x + handle, y]])
+    return nodes
+
+
 def fixed_cases():
     """Hand-picked shapes every run covers: loop with coincident end nodes, repeated node with retracted
     handles, straight line, S-curve, cusp."""
@@ -358,6 +372,8 @@ def fixed_cases():
     yield {"nodes": [[[0.0, 0.0], [0.0, 0.0], [30.0, 80.0]], [[70.0, 80.0], [100.0, 0.0], [70.0, 80.0]],
                      [[30.0, 80.0], [0.0, 0.0], [0.0, 0.0]]],
            "flat": 0.5, "scale": 100.0, "tags": ["retraced"], "shared": True}
+    # one call that has to insert well over a thousand nodes (text outlines and long strokes at fine smoothness do)
+    yield {"nodes": wavy_stroke(150), "flat": 0.05, "scale": 1500.0, "tags": ["long_stroke"]}
     corner = [[0.0, 10.0], [0.0, 10.0], [0.0, 10.0]]
     yield {"nodes": [[[0.0, 0.0], [0.0, 0.0], [0.0, 0.0]], [list(h) for h in corner],
                      [[6.0, 10.0], [8.0, 8.0], [8.0, 4.0]], [list(h) for h in corner]],
@@ -365,7 +381,7 @@ def fixed_cases():
 
 
 def run(ctx):
-    ctx.exhaustive("fixed-shapes", fixed_cases(), body, "eight hand-picked shapes (loop, repeated node, polygon, flag revisiting a corner, out-and-back stroke with shared points, "
+    ctx.exhaustive("fixed-shapes", fixed_cases(), body, "nine hand-picked shapes (loop, repeated node, polygon, flag revisiting a corner, out-and-back stroke with shared points, a 150-node stroke that needs > 1000 insertions, "
                    "S-curve, cusp, single node)")
     ctx.given("generated", typed_cases(), body, quick=800, thorough=40000)
 
